@@ -42,8 +42,34 @@ def tick_grid(tier, seed):
             h["src"] = "tick-grid"
             h["flavour"] = "tick=%s" % tick
             hs.append(h)
+    hs.extend(near_grid(tier, seed))
     if tier == "thorough":
         hs.extend(decimal_grid(seed))
+    return hs
+
+
+def near_grid(tier, seed):
+    """exactly representable prices a hair (2^-20 .. 2^-40 of the price unit) off a grid level, on either side:
+    judged by the rational side condition of C19 (never more aggressive, moved by less than a tick)"""
+    rng = random.Random(sub_seed(seed, "near-grid"))
+    hs = []
+    for tick in (1.0, 0.5, 0.25, 10.0):
+        s = BookSession(tick=tick, den=2, exact=False, p0=200)
+        try:
+            for _ in range(24 if tier == "quick" else 200):
+                lvl = rng.randint(2, 400)
+                eps = 2.0 ** -rng.choice([20, 26, 30, 34, 40])
+                px = lvl * tick + rng.choice([-1, 1]) * eps
+                e = s.submit(rng.random() < 0.5, False, lvl * 2, 1, 0, req_float=px)
+                if e["out"] == "ok":
+                    s.cancel(e["id"])
+            s.end()
+        except Broken:
+            pass
+        h = s.header()
+        h["src"] = "tick-near-grid"
+        h["flavour"] = "tick=%s" % tick
+        hs.append(h)
     return hs
 
 
